@@ -2,6 +2,7 @@ import RV.Proofs.Integrate
 import RV.Proofs.IntegrateStatus
 import RV.Proofs.IntegrateSplit
 import RV.Proofs.IntegrateAdaptive
+import RV.Proofs.IntegrateRestore
 import RV.Gen.C08Status
 /-
   C08 — integrate() honours its time, step-size and status contract.
@@ -90,6 +91,60 @@ theorem c08_fixed_exact_finish_ceil [FloorRing K] (step : StepFn K) (hfix : IsFi
   obtain ⟨s', e1, e2, e3, e4, e5, _⟩ := c08_fixed_exact_finish step hfix env henv s0 tmax n hst hex hdt hne
     ((lt_div_iff₀ hpos).mp h1) ((div_le_iff₀ hpos).mp h2) fuel (by rw [hn] at hfuel; clear hst; omega)
   exact ⟨s', e1, e2, e3, by rw [e4, hn], e5⟩
+
+/-- `dt` is restored on EVERY exit path.  Fixed-step integrator, `exact_finish_time = 1`, ARBITRARY
+    exit-condition flags at every boundary (user stop, escape, encounter, halting collision, SIGINT,
+    error message, no particles — also at the boundary that ends the step cut to `tmax − t`), any
+    fuel: whenever the call returns — with SUCCESS or with any exit code, after any number of steps
+    — `dt = copysign(|dt₀|, tmax − t₀)`.  (rebound.c:881-884: the restore is unconditional.) -/
+theorem c08_fixed_dt_restored_on_every_exit (step : StepFn K) (hfix : IsFixed step) (env : Nat → Flags)
+    (s0 : Sim K) (tmax : K) (hst : s0.status ≠ stPAUSED ∧ s0.status ≠ stSCREENSHOT)
+    (hex : s0.exactFinish = 1) (hdt : s0.dt ≠ 0) (hne : tmax ≠ s0.t) (fuel : Nat) (s' : Sim K)
+    (hret : integrate step env fuel s0 tmax false = .done s') :
+    s'.dt = dirOf s0.t tmax * |s0.dt| := by
+  have hsg := dirOf_cases s0.t tmax
+  have hpos : 0 < |s0.dt| := abs_pos.mpr hdt
+  have hdsg : dirOf s0.t tmax * |s0.dt| * dirOf s0.t tmax = |s0.dt| := by
+    have := dirOf_mul_self s0.t tmax
+    calc dirOf s0.t tmax * |s0.dt| * dirOf s0.t tmax
+        = (dirOf s0.t tmax * dirOf s0.t tmax) * |s0.dt| := by ring
+      _ = |s0.dt| := by rw [this, one_mul]
+  have hst' : s0.status ≠ -3 ∧ s0.status ≠ -4 := by simpa [Status.code] using hst
+  -- the state after `start`: dt sign-corrected, dt_last_done = 0, status RUNNING or an exit code of the first heartbeat
+  have hstart : ∃ st : Int, (st = -1 ∨ 1 ≤ st) ∧ start s0 tmax (env 0) =
+      ({ s0 with dt := dirOf s0.t tmax * |s0.dt|, dtLastDone := 0, status := st }, dirOf s0.t tmax * |s0.dt|) := by
+    unfold start runHeartbeat
+    simp only [fne_iff, fgt_iff, hne, ne_eq, not_false_eq_true, decide_true, if_true, Status.code, hst'.1, hst'.2,
+      and_self]
+    have hcs : copysign s0.dt (if s0.t < tmax then (1 : K) else -1) = dirOf s0.t tmax * |s0.dt| := by
+      unfold dirOf
+      by_cases h : s0.t < tmax
+      · simp [h, copysign_pos]
+      · simp [h, copysign_neg]
+    rcases env 0 with ⟨c, u, e, n, sg, em, nn⟩
+    cases u <;> cases e <;> cases n <;> simp [hcs]
+  obtain ⟨st, hstc, hs⟩ := hstart
+  have inv : RInv tmax (dirOf s0.t tmax * |s0.dt|) (dirOf s0.t tmax)
+      { s0 with dt := dirOf s0.t tmax * |s0.dt|, dtLastDone := 0, status := st } (dirOf s0.t tmax * |s0.dt|) := by
+    refine ⟨rfl, hex, ?_⟩
+    rcases hstc with h | h
+    · right; left; exact ⟨h, rfl, Or.inl rfl, dirOf_mul_pos hne⟩
+    · left; exact h
+  unfold integrate at hret
+  rw [hs] at hret
+  simp only at hret
+  cases hl : loop step env tmax false fuel 0
+      { s0 with dt := dirOf s0.t tmax * |s0.dt|, dtLastDone := 0, status := st } (dirOf s0.t tmax * |s0.dt|) with
+  | mk o lf' =>
+    rw [hl] at hret
+    cases o with
+    | done s1 =>
+      simp only [Outcome.done.injEq] at hret
+      obtain ⟨h1, h2⟩ := loop_restore step hfix env tmax _ _ hsg (by rw [hdsg]; exact hpos) fuel 0 _ _ inv s1 lf' hl
+      rw [← hret]
+      simp [finish, h2, h1]
+    | blocked s1 => simp at hret
+    | outOfFuel s1 => simp at hret
 
 /-- `tmax = t` is a no-op for every integrator and either value of exact_finish_time: zero steps,
     `t` and `dt` untouched (`dt` is not even sign-corrected), status SUCCESS; the only members
